@@ -4,14 +4,71 @@ _T = "TestVerifC08Atomic"
 
 PROP = dict(
     level="exploration",
-    rule="TBD",
-    assumptions=[],
+    technique=("rapid-generated payment batches and fault plans executed on the repo's three-hop fixture (real "
+               "channelLinks, lnwallet channels, circuit maps, invoice registry; one database per node), message tap and "
+               "connection cuts through the mock servers' intercept hook, whole-network restarts on the same databases; "
+               "scenario-independent conservation oracle on the durable state at quiescence plus causal rules on the "
+               "tapped wire log"),
+    rule=("One case = one generated plan: 1-8 payments Alice->Bob->Carol / Carol->Bob->Alice (receiver amount around "
+          "min_htlc 5 sat, around the dust limits 200/800 sat and dust+HTLC-fee thresholds, mid, 30-65% of a channel side, "
+          "97-150% of a side; invoice kind valid / overpaid / underpaid / unknown hash / hold-then-settle / hold-then-cancel; "
+          "forwarding fee exact, -1, +1, +777, 0 and negative; time lock exact or one block short; launch phase and "
+          "trigger), 0-2 restarts of all three nodes (graceful stop, channels and switches rebuilt from the databases, "
+          "invoice registries and preimage caches kept) triggered after a generated number of HTLC messages or when the "
+          "wire is idle, and per pre-restart phase 0-2 connection cuts (the k-th add/commit_sig/revoke_and_ack/fulfill/fail "
+          "on one of the four directed edges and everything after it - optionally the reverse direction too - is lost until "
+          "the restart). A quarter of the cases use a burst template (>=3 adds in one commitment, one refused by the forwarder, "
+          "one held, two restarts). After the last phase all hold invoices are resolved and the harness polls for quiescence "
+          "(every payment result known, all four channel ends IsChannelClean) with doomed 'nudge' payments when the wire is "
+          "idle; deadline (90 s) => the case is counted 'inconclusive' and asserts nothing. Oracle: (A) no HTLC / pending "
+          "commitment in any durable channel state, both ends agree, local+remote+fee == capacity; (B) Bob's total over both "
+          "channels == start + sum of (incoming - outgoing) of the payments whose SENDER was told success, to the msat, no "
+          "success with incoming < outgoing; Alice's and Carol's balance changes equal what their payment results imply; "
+          "(C) sender result success <=> receiver invoice Settled with AmtPaid == receiver amount and the right preimage, "
+          "failure => invoice neither Settled nor Accepted; (D) all three circuit maps empty in memory and when reloaded "
+          "from disk (except the sender-side half-open circuit of a local add that was lost unsigned in a restart); (E) no "
+          "forwarding package with an unacked add or an unacked fail; (F) wire rules for Bob: an upstream fulfill only after "
+          "a fulfill with that preimage was received downstream; an upstream fail only after the downstream fail, a "
+          "commit_sig and a revoke_and_ack were received downstream, or the outgoing add was never signed before a "
+          "restart; each HTLC forwarded once (retransmission once per reconnect, same id), answered once per "
+          "connection, never both settled and failed, never forwarded after its incoming side was answered and signed; "
+          "(G) a forwarded HTLC whose circuit is half-open and loaded from disk after the incoming link finished "
+          "reprocessing its packages, with nothing pending and a silent wire for 20 s, is reported as dangling. "
+          "Non-trivial = the lifetimes (first add on the wire .. result known to the sender) of >=2 payments overlapped AND "
+          "(a cut fired OR a restart found an HTLC / pending commitment in some durable channel state). Distinct = "
+          "distinct plans."),
+    level_note=("Weak by nature: the interleaving of link, switch and mailbox goroutines is chosen by the Go runtime; the "
+                "harness controls only the payment batch, the cut points, the restart points and the order of its own "
+                "calls. Trigger points are message counts, so the same plan explores different schedules on different "
+                "runs (replays of a failing plan may not reproduce; rapid then reports the failure as flaky, which is "
+                "still a violation). The thorough tier runs under the race detector, which also perturbs schedules."),
+    assumptions=[
+        "goroutine schedules are chosen by the Go runtime (with and without -race); only schedules that occurred were checked",
+        "faults are connection cuts (a prefix of each directed message stream is delivered) and graceful whole-network "
+        "restarts (Switch.Stop / link.Stop, then everything rebuilt from the databases); crashes inside a database "
+        "transaction, single-link restarts and reordering are not generated",
+        "one channeldb per node (createTestChannel re-implemented with the databases passed in): the repo fixture's "
+        "createClusterChannels gives Bob's two channels separate files, which silently drops the cross-channel "
+        "settle/fail acks this property is about",
+        "invoice registry and preimage cache are durable node state and are carried over a restart by the harness; mock "
+        "onion (hop payloads in clear), mock error encrypter, static fee estimator (no update_fee), constant block height",
+        "settle acks in the forwarding package are lazy by design (Switch batch on AckEventTicker, dropped while the "
+        "circuit is closing): the harness force-ticks the ack ticker and requires only fails and adds to be acked",
+        "a locally initiated add that was handed to the link but not signed before a restart leaves a half-open circuit "
+        "and no result at the SENDER (router-level concern): classified 'lost', expected by oracle (D)",
+        "a node that restarts between its revoke_and_ack and its commit_sig does not sign until the next update on that "
+        "channel (lnd liveness behaviour); the harness sends doomed payments in both directions when the wire is idle",
+        "waits are polls with a 90 s deadline (VERIF_C08_DEADLINE_S); a missed deadline, a link failure or a fixture "
+        "fatal makes the case inconclusive (counter), never a violation; the dangling-HTLC verdict (G) is structural, "
+        "not a timeout",
+        "Switch.GetAttemptResult is never called concurrently with Switch.Stop (WaitGroup Add/Wait race in lnd otherwise)",
+    ],
     jobs=dict(
         quick=[
-            job("htlcswitch", "^TestVerifC08Atomic$", [_T], 12, shards=8, timeout=900),
+            job("htlcswitch", "^TestVerifC08Atomic$", [_T], 12, shards=8, timeout=1200),
         ],
         thorough=[
-            job("htlcswitch", "^TestVerifC08Atomic$", [_T], 20, shards=12, timeout=2400, race=True),
+            job("htlcswitch", "^TestVerifC08Atomic$", [_T], 25, shards=12, timeout=2400, race=True),
         ],
     ),
 )
